@@ -51,6 +51,34 @@ def run(ctx):
         # every field mismatch is an error: the comparison loop returns Err on `!=`
         ne = [(fb.path, bi) for fb in lib.family(F, lv.path) for bi, t in fb.calls() if call_matches(t, ['std::cmp::PartialEq::ne', 'std::cmp::PartialEq::eq', 're:ColumnOptions as std::cmp::PartialEq>::(eq|ne)$'])]
         ctx.ob('1i options-compared', 'K1-must-pass', lv.path, 'stored and requested column options are compared with ColumnOptions equality', len(ne) >= 1, '')
+        # ... and what is compared are the stored options of the column and the requested options of the column THEMSELVES: neither
+        # operand of the equality is a value put together from both sides (`ColumnOptions { flag: self.flag, ..stored.clone() }`
+        # makes a field always agree)
+        EQ = ['re:ColumnOptions as std::cmp::PartialEq>::(eq|ne)$']
+        fam_paths = set(y.path for y in lib.family(F, lv.path))
+        neq = 0
+        for fb in [x for x in F.bodies.values() if x.path.startswith('options::')]:
+            for bi, t in fb.calls():
+                if not (bi in fb.normal_blocks() and call_matches(t, EQ) and len(t['a']) == 2):
+                    continue
+                if not (fb.path in fam_paths or (F.transitive_callers([fb.path]) & fam_paths)):
+                    continue
+                neq += 1
+                built = []
+                for a_ in t['a']:
+                    if op_place(a_) is None:
+                        continue
+                    sl = backward_slice(fb, [op_place(a_)])
+                    for l in sl.locals:
+                        for d in fb.defs().get(l, []):
+                            if d[2] == 'assign' and d[3]['r']['k'] == 'agg' and d[3]['r'].get('ak') == 'Adt:options::ColumnOptions':
+                                built.append(fb.loc(d[0]))
+                            if d[2] == 'call' and str(d[3].get('rty', '')) == 'options::ColumnOptions' and not call_matches(d[3], ['re:Clone>?::clone$']):
+                                built.append('%s at %s' % (core.call_names(d[3])[0], fb.loc(d[0])))
+                ctx.ob('1i2 options-compared-as-they-are %s' % fb.path, 'K4-provenance', fb.path,
+                       'the operands of the column-options equality are the stored and the requested options as they are: neither is a ColumnOptions value put together for the comparison',
+                       not built, 'an operand is built at %s' % built, fb.loc(bi))
+        ctx.ob('1i3 options-equality-site', 'anchor', lv.path, 'the metadata validation compares column options with ColumnOptions equality somewhere', neq >= 1, 'sites %d' % neq)
         lens = [bi for fb in lib.family(F, lv.path) for bi in fb.normal_blocks() for s in fb.blocks[bi]['s'] if s['k'] == 'assign' and s['r']['k'] == 'bin' and s['r']['op'] in ('Ne', 'Eq')]
         ctx.ob('1j column-count-compared', 'K1-must-pass', lv.path, 'the number of columns is compared', len(lens) >= 1, '')
     # ------------------------------------------------ 2. who writes metadata / creates directories
